@@ -66,6 +66,10 @@ add("C13", "genrun", "generated worlds + corpus x 7 backends x variants; declara
     "For every (world, backend, variant) the import/export declarations (names and core signatures) are extracted with attribute-anchored patterns for C/C++, Rust, Go, C#, MoonBit and D, turned into a synthetic core module with the world's component-type metadata, and wit-component must (1) resolve every import and export against the world (unknown name, wrong core signature, missing required export are errors) and (2) produce a component that validates; every exported name must be one wit-parser assigns to an item of the world. 6k generated worlds + corpus per quick run. Three defects were fixed, eleven signatures (three about --async on sync functions, eight C# ones) are listed known findings; failures of one case are triaged individually so a known one never masks another.",
     "Extraction patterns and the language-type->core-type tables are trusted; unmapped types are counted and judged on names only; imports are only judged if declared (the property says `actually references`); nothing is compiled or executed.")
 
+add("C28", "genrun", "generated worlds with structurally equal / near-equal type clones; independent recursive structural equality and fact walkers vs wit_bindgen_core::Types",
+    "10k generated worlds per quick run in near-equal mode (exact copies, renamed/swapped/retyped fields and cases, aliases, use-imports with renames, resources, handles, futures/streams) plus the corpus: for every pair of live types get_representative_type agrees with an independent structural equality; content facts equal an independent walk; borrowed/owned/error facts equal reachability from import params / export params and results / error types; after collect_equal_types every class member carries the union.",
+    "may_alias_another_type = always true (the Rust backend's narrower predicate is not modelled); borrowed/owned are judged for named types only, as the analysis records them; wit-parser's LiveTypes supplies the set of live types.")
+
 PENDING_REASON = "check not built yet in this session (planned in DESIGN.md §4); not claimed until it exists and passes its sensitivity runs"
 
 def main():
@@ -117,7 +121,7 @@ def main():
 NA = {}
 HOOK_COMMITS = ["b827c12", "a6f2383"]
 ENGINES = [
-    {"name": "genrun", "path": "harness/genrun", "serves_properties": ["C13", "C15", "C16", "C17", "C29", "C30", "C33"], "kind_free_text": "tape-driven constructive WIT world generator (harness/witgen) + in-process drivers for all eight generators with panic capture and output collection"},
+    {"name": "genrun", "path": "harness/genrun", "serves_properties": ["C13", "C15", "C16", "C17", "C28", "C29", "C30", "C33"], "kind_free_text": "tape-driven constructive WIT world generator (harness/witgen) + in-process drivers for all eight generators with panic capture and output collection"},
     {"name": "abisim", "path": "harness/abisim", "serves_properties": ["C01", "C02", "C03", "C04"], "kind_free_text": "recording wit_bindgen_core::abi::Bindgen + instruction interpreter + independent reference canonical ABI (harness/refabi), driven by proptest"},
     {"name": "rtpbt", "path": "harness/rtpbt", "serves_properties": ["C24"], "kind_free_text": "proptest histories against wit_bindgen::rt allocation entry points with a tracking global allocator"},
     {"name": "corepbt", "path": "harness/corepbt", "serves_properties": ["C17", "C25", "C26", "C27", "C28", "C34"], "kind_free_text": "proptest harnesses over public items of wit-bindgen-core / wit-bindgen rt / wit-bindgen-test"},
